@@ -210,6 +210,7 @@ type Path struct {
 	Events []*Event
 	Conds  []Cond
 	Ret    []*Val
+	RetContent []*Val    // what each returned slice holds when the function returns (nil where that is the value itself)
 	Panic  bool          // path ends in an explicit panic
 	Mem    map[string]memEntry
 	Trunc  string // non-empty: analysis gave up on this path (reason)
